@@ -37,7 +37,7 @@ def spy_optic(c, nrays, wavelengths, primary_index, fields=((0.0, 0.0), (0.0, 1.
                           for k in ('x', 'y', 'z', 'L', 'M', 'N', 'opd', 'intensity')}
         return table[key]
 
-    class SG:
+    class SG(StubBase):
         stop_index = 1
 
     class WG:
@@ -45,15 +45,15 @@ def spy_optic(c, nrays, wavelengths, primary_index, fields=((0.0, 0.0), (0.0, 1.
             return list(wavelengths)
     WG.primary_index = primary_index
 
-    class FG:
+    class FG(StubBase):
         max_field = 14.0
         max_y_field = 14.0
 
         def get_field_coords(self):
             return list(fields)
 
-    class Opt:
-        pass
+    class Opt(StubBase):
+        field_type = 'angle'          # the symbolic analysis contracts are stated for angular fields
     o = Opt()
     o.surface_group, o.wavelengths, o.fields = SG(), WG(), FG()
     o.surface_group.stop_index = stop_index
